@@ -204,14 +204,30 @@ class Driver:
     def _worker(self, q, results, lock):
         proc = None
         buf = b""
+        served = 0
         while True:
             try:
                 idx, case = q.get_nowait()
             except queue.Empty:
                 break
+            # a worker process is recycled after a few hundred cases: each case builds an engine with its own thread pool,
+            # and in runs of tens of thousands of cases leftover threads / arenas would hit the process limits we impose
+            if proc is not None and served >= 400 and proc.poll() is None:
+                try:
+                    proc.stdin.close()
+                    proc.wait(timeout=5)
+                except Exception:
+                    try:
+                        proc.kill()
+                    except Exception:
+                        pass
+                proc = None
             if proc is None or proc.poll() is not None:
                 proc = self._spawn()
                 buf = b""
+                served = 0
+            # weight = the threads the case's engine starts (a thread pool per engine; their stacks count against RLIMIT_AS)
+            served += max(2, int((case.get("rt") or {}).get("threads", 2)))
             line = (json.dumps(case) + "\n").encode()
             obs = None
             extra = []
